@@ -109,6 +109,7 @@ func runCase(c J) (res interface{}) {
 		}
 	}()
 	sharedCfgs = nil
+	optCache = nil
 	k, _ := c["k"].(string)
 	fn := kinds[k]
 	if fn == nil {
